@@ -23,6 +23,7 @@ DOC = {
         "of label lists."
     ),
     "rules": {
+        "C06-R9": "linked groups stack data, indices, groups, weights, matrices and scales of the datasets in one order (so a dataset's index-dependent matrix is sliced with its own index); result variables are stored as labelled DataArrays of the dataset's own label (alignment by clp_label, never a bare (dims, data) tuple) - shared with C09-R4 and C03-R1",
         "C06-R8": "retrieve_clps writes and reads every clp at the position of its label in the full label list (relation source and target included), never at a position taken from the reduced list (shared with C03-R6)",
         "C06-R1": "combine_megacomplex_matrices: result column = position of the label in the merged list; operand column = <that operand's labels>.index(label), guarded by membership; zeros initialised; labels and matrices are swapped under the same condition",
         "C06-R2": "damped-oscillation and PFID: label list, each kernel and the complex split use the same blocked layout (real/cos columns 0..n-1, imag/sin columns n..2n-1)",
@@ -116,7 +117,7 @@ def _layout_of_labels(e: ast.AST) -> tuple | None:
     return None
 
 
-def r2(ctx) -> None:
+def r2(ctx, rule: str = "C06-R2") -> None:
     repo = ctx.repo
     for rel, cls, kernels, split in (
         (DOA, "DampedOscillationMegacomplex", ["calculate_damped_oscillation_matrix_no_irf"], "calculate_damped_oscillation_matrix_gaussian_irf"),
@@ -127,14 +128,14 @@ def r2(ctx) -> None:
         ds = [d for d in fl.defs_of("clp_label") if d.kind == "assign"]
         lay = _layout_of_labels(ds[0].value) if ds else None
         ok = lay is not None and lay[0] == "blocked" and lay[1] == ["_cos", "_sin"] and lay[2] == "self.labels"
-        ctx.ob("C06-R2", f"{cls}/label-layout", ok, cm, ds[0].stmt if ds else cm.node,
+        ctx.ob(rule, f"{cls}/label-layout", ok, cm, ds[0].stmt if ds else cm.node,
                "clp labels are [<label>_cos for all labels] + [<label>_sin for all labels]: cos block, then sin block",
                construct=lib.short(ds[0].stmt, 120) if ds else "def")
         rets = lib.nodes(cm, ast.Return)
-        ctx.ob("C06-R2", f"{cls}/returns-labels-with-matrix", all(norm(r.value) == "(clp_label, matrix)" for r in rets) and bool(rets), cm, rets[0] if rets else cm.node,
+        ctx.ob(rule, f"{cls}/returns-labels-with-matrix", all(norm(r.value) == "(clp_label, matrix)" for r in rets) and bool(rets), cm, rets[0] if rets else cm.node,
                "the label list built above is returned with the matrix")
         shp = [d for d in fl.defs_of("matrix_shape") if d.kind == "assign"]
-        ctx.ob("C06-R2", f"{cls}/matrix-has-2n-columns", bool(shp) and "len(clp_label)" in norm(shp[0].value), cm, shp[0].stmt if shp else cm.node,
+        ctx.ob(rule, f"{cls}/matrix-has-2n-columns", bool(shp) and "len(clp_label)" in norm(shp[0].value), cm, shp[0].stmt if shp else cm.node,
                "the matrix has one column per clp label")
         for k in kernels:
             kf = ctx.fn(rel, k)
@@ -168,11 +169,11 @@ def r2(ctx) -> None:
                 # zero initial counter
                 init0 = any(d.kind == "assign" and isinstance(d.value, ast.Constant) and d.value.value == 0 for d in flk.defs_of(cnt))
                 okk = step1 and re_is_k and n_ok and init0
-            ctx.ob("C06-R2", f"{k}/blocked-columns", okk, kf, sts[0][1] if sts else kf.node,
+            ctx.ob(rule, f"{k}/blocked-columns", okk, kf, sts[0][1] if sts else kf.node,
                    "oscillation k writes its real (cos) part to column k and its imaginary (sin) part to column n + k, like the label list", trace)
             loopz = [n for n in lib.nodes(kf, ast.For) if isinstance(n.iter, ast.Call) and norm(n.iter.func) == "zip"]
             ok_zip = len(loopz) == 1 and [norm(a) for a in loopz[0].iter.args] == kf.params()[1:3]
-            ctx.ob("C06-R2", f"{k}/frequency-rate-pairs", ok_zip, kf, loopz[0] if loopz else kf.node, "frequency k is paired with rate k")
+            ctx.ob(rule, f"{k}/frequency-rate-pairs", ok_zip, kf, loopz[0] if loopz else kf.node, "frequency k is paired with rate k")
         sf = ctx.fn(rel, split)
         rets = lib.nodes(sf, ast.Return)
         oks = False
@@ -182,7 +183,7 @@ def r2(ctx) -> None:
                 a, b = v.args[0].elts
                 ax = next((k.value for k in v.keywords if k.arg == "axis"), None)
                 oks = norm(a).endswith(".real") and norm(b).endswith(".imag") and norm(a)[:-5] == norm(b)[:-5] and isinstance(ax, ast.Constant) and ax.value == 1
-        ctx.ob("C06-R2", f"{split}/blocked-columns", oks, sf, rets[0] if rets else sf.node,
+        ctx.ob(rule, f"{split}/blocked-columns", oks, sf, rets[0] if rets else sf.node,
                "the IRF kernel returns concatenate((real, imag), axis=1): real block then imaginary block, like the label list")
         # the oscillation axis of the complex array is ordered like rates/frequencies
         fls = lib.flow(sf, repo)
@@ -198,12 +199,12 @@ def r2(ctx) -> None:
             sel = [a for a in kt.all_atoms() if a[0] == "sub"]
             # rates enter linearly with coefficient one, the imaginary part is elementwise in the frequencies
             okk = kt.coefficient_of(("name", rp)) == Poly.const(1) and "1j" in names and fp in names and rp not in names and not sel
-        ctx.ob("C06-R2", f"{split}/columns-in-parameter-order", okk, sf,
+        ctx.ob(rule, f"{split}/columns-in-parameter-order", okk, sf,
                ks[0].stmt if ks else sf.node, "column k of the complex array belongs to rate k and (elementwise) frequency k: k = rates + 1j * f(frequencies)")
         # accumulate on index variant
         oi = ctx.fn(rel, split + "_on_index")
         aug = [s for t, s in lib.stores(oi) if isinstance(s, ast.AugAssign) and norm(t) == oi.params()[0] and isinstance(s.op, ast.Add)]
-        ctx.ob("C06-R2", f"{split}_on_index/adds-whole-blocks", len(aug) == 1 and isinstance(aug[0].value, ast.Call) and norm(aug[0].value.func) == split, oi,
+        ctx.ob(rule, f"{split}_on_index/adds-whole-blocks", len(aug) == 1 and isinstance(aug[0].value, ast.Call) and norm(aug[0].value.func) == split, oi,
                aug[0] if aug else oi.node, "the (n_t, 2n) block of each Gaussian is added as a whole (no column re-ordering)")
         # the parameter arrays follow the declaration order of the labels
         for nm in ("frequencies", "rates"):
@@ -226,7 +227,7 @@ def r2(ctx) -> None:
             bad_call = any(a[0] == "call" and a[1] in ("numpy.sort", "sorted", "numpy.flip", "numpy.unique", "reversed", "numpy.roll") for d in dd
                            for a in fl.term(d.value, d.node).all_atoms())
             okp = okp and not bad_sel and not bad_call
-            ctx.ob("C06-R2", f"{cls}/{nm}-in-declaration-order", okp, cm, dd[0].stmt if dd else cm.node,
+            ctx.ob(rule, f"{cls}/{nm}-in-declaration-order", okp, cm, dd[0].stmt if dd else cm.node,
                    f"the {nm} array follows self.{nm} (the order of self.labels)")
 
 
@@ -311,6 +312,16 @@ def r8(ctx) -> None:
     c03.r6(ctx, rule="C06-R8")
 
 
+def r9(ctx) -> None:
+    """Per-dataset quantities of linked groups are stacked in one order, and result variables are assigned as labelled
+    arrays (xarray aligns them by clp_label) - shared with C09-R4 and C03-R1."""
+    from glint.rules import c03
+    from glint.rules import c09
+
+    c09.r4(ctx, rule="C06-R9")
+    c03.r1(ctx, rule="C06-R9")
+
+
 def check(ctx) -> None:
     for g in check.groups:
         g(ctx)
@@ -328,4 +339,4 @@ def r7(ctx) -> None:
     c04.r3(ctx, rule="C06-R7")
 
 
-check.groups = [r1, r2, r3, r5, r6, r7, r8]
+check.groups = [r1, r2, r3, r5, r6, r7, r8, r9]
